@@ -54,7 +54,9 @@ VDepth == 3
 (***************************************************************************)
 IMethods == IF Thorough THEN {"POST", "PUT", "DELETE", "PATCH", "PROPPATCH", "MKCOL", "X-UNKNOWN", "HEAD", "OPTIONS"}
             ELSE {"POST", "DELETE", "PROPPATCH", "X-UNKNOWN", "HEAD"}
-IStatus == IF Thorough THEN {200, 204, 301, 404, 500} ELSE {200, 301, 404}
+\* both ends of the 2xx and 3xx classes, the redirects that keep the method (307, 308), and what lies just outside
+IStatus == IF Thorough THEN {200, 201, 204, 226, 299, 300, 301, 302, 303, 307, 308, 399, 400, 404, 500, 599}
+           ELSE {200, 299, 301, 307, 308, 399, 400, 404}
 \* <<loc1, locso>>: none, the other same-origin resource, a same-origin resource nothing is stored for, the cross-origin resource
 ILoc == {<<0, 0>>, <<2, 1>>, <<3, 1>>, <<11, 0>>}
 IAnsUnsafe == { [A0 EXCEPT !.st = s, !.ccp = 0, !.ma = None, !.etag = 0, !.loc1 = l[1], !.locso = l[2], !.cloc1 = c[1], !.clocso = c[2]]
